@@ -133,6 +133,23 @@ def evaluate(ctx, items):
             rep.count("finding", key)
             rep.finding(key, "%s -> %s (expected %s)" % (text, C.cdump(real)[:160], C.cdump(want)[:160]),
                         {"sql": text, "observed": real, "expected": want, "e": e})
+        # 2b. the other entry points: the property is about the operator order of the library, not of one dialect
+        #     (atoms are plain names, numbers and single-quoted strings: nothing dialect-sensitive is written)
+        if origin == "d2" and style == "minimal":
+            for d in ("mysql", "sqlserver", "bigquery"):
+                rd = R.parse_raw(text, d)
+                if rd[0] == "ok":
+                    try:
+                        other = {"ok": C.canon(rd[1]["select"]["value"])}
+                    except Exception:
+                        other = {"ok": C.canon(rd[1])}
+                else:
+                    other = {"$err": rd[1]}
+                rep.count("entry_point", d)
+                if C.cdump(other) != C.cdump(real):
+                    rep.finding("entry-point-differs:%s:%s" % (d, classify(e, glv)),
+                                "parse_%s(%r) -> %s but parse -> %s" % (d, text, C.cdump(other)[:160], C.cdump(real)[:160]),
+                                {"sql": text, "dialect": d, "observed": other, "expected": real, "e": e})
         # 3. the theorem's promise, checked on the model: compatible => nothing dropped
         if ans["ok"] and ans["drops"]:
             raise C.InfraError("model drops content on a compatible expression: " + text)
@@ -358,7 +375,7 @@ def replay(ctx, payload):
         print(got)
         print(mine)
         return got != mine
-    r = R.parse_raw(payload["sql"])
+    r = R.parse_raw(payload["sql"], payload.get("dialect", "common"))
     real = {"ok": C.canon(r[1]["select"]["value"])} if r[0] == "ok" else {"$err": r[1]}
     print("sql:", payload["sql"])
     print("observed:", C.cdump(real))
